@@ -10,7 +10,6 @@ pub use liquid_core::model::State;
 pub uninterp spec fn veq(a: VId, b: VId) -> bool;
 pub uninterp spec fn vcmp(a: VId, b: VId) -> Option<core::cmp::Ordering>;
 pub uninterp spec fn truthy(a: VId) -> bool;
-pub uninterp spec fn nil_vid() -> VId;
 /// the integer a value denotes, if it is an integer (or a string spelling one)
 pub uninterp spec fn vid_int(v: VId) -> Option<i64>;
 /// Liquid truth: nil is not truthy (`false` is the other falsy value; stated by the scalar/Value query_state tables)
